@@ -6,6 +6,7 @@ package main
 // contract (validated by the self-test against a real in-memory Pebble).
 
 import (
+	"os"
 	"fmt"
 	"go/types"
 	"strings"
@@ -256,6 +257,11 @@ func registerPebbleModel(in *Interp) {
 	doGet := func(in *Interp, p *Path, slots []kvSlot, key StringVal) Val {
 		if i := slotFind(p, slots, key); i >= 0 {
 			v := slots[i].val
+			if os.Getenv("VERIF_DEBUG") == "2" {
+				k, _ := key.conc()
+				sk, _ := slots[i].key.conc()
+				fmt.Fprintf(os.Stderr, "   GET key=%q n=%s cap=%d -> slot %d key=%q n=%s eq=%s\n", k, key.n.String(), len(key.b), i, sk, slots[i].key.n.String(), truncate(p.strEq(slots[i].key, key).String(), 400))
+			}
 			return TupleVal{strToSlice(StringVal{b: append([]*Term(nil), v.b...), n: v.n}), IfaceVal{t: errModelType, v: mkPtr(&closerModel{})}, IfaceVal{}}
 		}
 		return TupleVal{SliceVal{n: mkInt(0)}, IfaceVal{}, in.errNotFound(p)}
@@ -266,11 +272,13 @@ func registerPebbleModel(in *Interp) {
 		return doGet(in, p, db.slots, toKey(p, in, a[1]))
 	}
 	I[name("DB", "Set")] = func(in *Interp, p *Path, fr *Frame, a []Val, s ssa.CallInstruction) Val {
+		in.interferencePoint(p, fr, "db.Set") // a concurrent reader may run between a writer's own commits
 		db := dbOf(p, a[0])
 		db.commit(in, p, []batchOp{{kind: 0, key: toKey(p, in, a[1]), val: toKey(p, in, a[2])}}, isSyncOpt(a[3]))
 		return IfaceVal{}
 	}
 	I[name("DB", "Delete")] = func(in *Interp, p *Path, fr *Frame, a []Val, s ssa.CallInstruction) Val {
+		in.interferencePoint(p, fr, "db.Delete")
 		db := dbOf(p, a[0])
 		db.commit(in, p, []batchOp{{kind: 1, key: toKey(p, in, a[1])}}, isSyncOpt(a[2]))
 		return IfaceVal{}
@@ -305,6 +313,7 @@ func registerPebbleModel(in *Interp) {
 		if b.closed {
 			p.end("panic", "pebble: batch already closed")
 		}
+		in.interferencePoint(p, fr, "batch.Commit")
 		b.db.commit(in, p, b.ops, isSyncOpt(a[1]))
 		b.ops = nil
 		return IfaceVal{}
@@ -427,6 +436,27 @@ func registerPebbleModel(in *Interp) {
 		}
 		tag, conc := concBytes(p, in, br.data)
 		if !conc {
+			if os.Getenv("VERIF_DEBUG") != "" {
+				if sl, ok := br.data.(SliceVal); ok {
+					st := in.bytesToString(p, sl)
+					stk := ""
+					for f := fr; f != nil; f = f.caller {
+						stk += " < " + f.fn.Name()
+					}
+					fmt.Fprintf(os.Stderr, "gob decode of symbolic bytes: len=%s cap=%d stack=%s\n", st.n.String(), len(st.b), stk)
+					if db, ok := p.stubs["pebble.db"].(*Pointer); ok {
+						for _, sl := range db.model.(*PebbleDB).slots {
+							k, _ := sl.key.conc()
+							fmt.Fprintf(os.Stderr, "   slot key=%q (n=%s) vallen=%s\n", k, sl.key.n.String(), sl.val.n.String())
+						}
+					}
+					for i, b := range st.b {
+						if i < 12 {
+							fmt.Fprintf(os.Stderr, "  b[%d]=%s\n", i, truncate(b.String(), 300))
+						}
+					}
+				}
+			}
 			p.end("unsupported", "gob decode of symbolic bytes")
 		}
 		payload, ok := p.stubs["gob:"+tag]
